@@ -9,6 +9,7 @@ class OnceTimedOperation(AbstractDenseTimeOnlineOperation):
         self.max = - float("inf")
         self.begin = begin
         self.end = end
+        self.started = False
 
     def reset(self):
         pass
@@ -34,7 +35,7 @@ class OnceTimedOperation(AbstractDenseTimeOnlineOperation):
 
         i = 1
         while len(sample) >= i:
-            if i == 1 and sample[0][0] == 0 and begin > 0:
+            if i == 1 and sample[0][0] == 0 and begin > 0 and not self.started:
                 out.append((0, sample[0][0] + begin, -float('inf')))
             if i == len(sample):
                 b = (sample[i - 1][0] + begin, sample[i-1][0] + end, sample[i - 1][1])
@@ -61,6 +62,9 @@ class OnceTimedOperation(AbstractDenseTimeOnlineOperation):
             i = i + 1
 
         last = []
+        if sample:
+            self.started = True
+
         prev = float('nan')
         for i, b in enumerate(out):
             if self.residual_start >= b[1]:
